@@ -369,6 +369,53 @@ def history_search(ctx):
 
 
 # ---------------------------------------------------------------------------
+# annotations: a module whose __annotations__ exists but is EMPTY (its only annotations stand in a dead branch or annotate attributes),
+# and a module without any: an annotated assignment in one doctest is never seen by the next, nor by the module
+# ---------------------------------------------------------------------------
+ANNOT_MODULES = ['if False:\n    rate: int\n', 'class Cfg: pass\ncfg = Cfg()\ncfg.limit: int = 3\n', 'PLAIN = 1\n', 'typed: int = 1\n']
+ANNOT_DOCTESTS = '''
+def a_first():
+    """
+    >>> total: int = 0
+    >>> print('a', 'total' in __annotations__)
+    a True
+    """
+
+def b_second():
+    """
+    >>> print('b', 'total' in globals().get('__annotations__', {}))
+    b False
+    """
+'''
+
+
+def annotation_leak(ctx):
+    from xdoctest import core
+    tmp = tempfile.mkdtemp(prefix='xdverif_c11a_')
+    try:
+        for mi, head in enumerate(ANNOT_MODULES):
+            path = os.path.join(tmp, 'xdverif_c11_annot%d.py' % mi)
+            open(path, 'w').write(head + ANNOT_DOCTESTS)
+            with warnings.catch_warnings():
+                warnings.simplefilter('ignore')
+                exs = {e.callname: e for e in core.parse_doctestables(path, style='freeform', analysis='static')}
+            for order in (['a_first', 'b_second'], ['b_second', 'a_first', 'b_second'], ['a_first', 'a_first', 'b_second']):
+                obs = [observe(exs[n], None)[0] for n in order]
+                ctx.evaluations += 1
+                mod = sys.modules.get('xdverif_c11_annot%d' % mi)
+                leaked = sorted(k for k in getattr(mod, '__annotations__', {}) if k == 'total') if mod is not None else []
+                if obs != ['passed'] * len(order) or leaked:
+                    ctx.violation('history-dependence', {
+                        'what': 'module %r, doctests %r: outcomes %r (each passes alone by construction); the module\'s __annotations__ holds %r afterwards' % (
+                            head, order, obs, leaked), 'module_source': head + ANNOT_DOCTESTS, 'history': order,
+                        'theorem_or_correspondence': 'C11 isolation: annotations written by a doctest'}, True)
+                    break
+            sys.modules.pop('xdverif_c11_annot%d' % mi, None)
+    finally:
+        shutil.rmtree(tmp, ignore_errors=True)
+
+
+# ---------------------------------------------------------------------------
 # RuntimeState histories vs the heap model
 # ---------------------------------------------------------------------------
 EFFECTS = [('REQUIRES', True, UNMET_A), ('REQUIRES', False, UNMET_A), ('REQUIRES', True, UNMET_B), ('REQUIRES', False, UNMET_B),
@@ -520,6 +567,7 @@ def pytest_histories(ctx):
 def run(ctx):
     unit_histories(ctx)
     history_search(ctx)
+    annotation_leak(ctx)
     pytest_histories(ctx)
     ctx.add_rule('RuntimeState: seeded histories of 1..4 states (default options none/{}/booleans) x 0..4 updates (block/inline, +-REQUIRES unmet a/b/met, +-SKIP) vs the heap model; '
                  'DocTest histories: permutations of 2 and 3 of the 13 doctests of a generated module + seeded histories of 4..7 with repetitions, on re-used and fresh '
